@@ -506,6 +506,19 @@ def build_ops():
         w[0].add_property('s3', stride=3, default=0.5)
         m[0].add_prop('s3', 'double', 0.5, None, 3)
 
+    # an existing property declared again with another default: values
+    # stay, particles created from now on get the new default
+    @op('redeclare_x_default', enabled=has('x'))
+    def _(w, m, k):
+        w[0].add_property('x', default=2.5)
+        m[0].add_prop('x', 'double', 2.5, None, 1)
+
+    @op('redeclare_s2_default', enabled=has('s2'))
+    def _(w, m, k):
+        st = m[0].meta['s2'][1]
+        w[0].add_property('s2', type=m[0].meta['s2'][0], stride=st, default=7)
+        m[0].add_prop('s2', m[0].meta['s2'][0], 7, None, st)
+
     @op('re_add_i_as_long', enabled=hasnt('i'))
     def _(w, m, k):
         w[0].add_property('i', type='long', default=4)
